@@ -66,6 +66,14 @@ def make_client(spec, idx, ns_extra=None):
           "c0": float(spec.get("c0", 1.0))}
     for k, v in (ns_extra or {}).items():
         ns[k] = v
+    import types
+
+    k = ns["c0"]
+    # a module-like object bound to the SAME name in every client, with different behaviour per client
+    ns["tools"] = types.SimpleNamespace(
+        f=lambda x, _k=k: x * _k,
+        sub=types.SimpleNamespace(g=lambda x, _k=k: np.abs(x) + _k),
+    )
     exec(compile(CLIENT_SRC, f"<client{idx}>", "exec"), ns)
     extra = spec.get("extra")
     extra = None if extra is None else dict(extra)
